@@ -4,3 +4,4 @@ import Verif.Properties.C12
 #print axioms C12.resolves
 #print axioms C12.once
 #print axioms C12.toplevel_iff
+#print axioms C12.keys_distinct
